@@ -175,6 +175,12 @@ static void obs(void) {
   struct uv__queue* q;
   int i, first = 1;
   print_interest(loop.backend_fd, -1);   /* monitor-only: the kernel's interest list after every op */
+  /* monitor-only: libuv's registry loop->watchers[fd] for the scenario descriptors */
+  printf("#reg");
+  for (i = 0; i < (int) loop.nwatchers && i < FD_HI; i++)
+    if (IN_RANGE(i) && loop.watchers[i] != NULL) printf(" %d:%d", i, id_of_io(loop.watchers[i]));
+  printf("\n");
+  first = 1;
   printf("obs nfds=%u nw=%u wq=", loop.nfds, loop.nwatchers);
   uv__queue_foreach(q, &loop.watcher_queue) {
     printf("%s%d", first ? "" : ",", id_of_io(uv__queue_data(q, uv__io_t, watcher_queue)));
